@@ -227,15 +227,25 @@ Quant(I) == IF ~IsNearest(I) THEN 0 ELSE IF IsFast(I.kind) THEN ONE ELSE (ONE \d
 \* measurement error of one instant (quantisation of the log + rounding of the sample type)
 EpsAt(I, tau) == IF I.T = 64 THEN 2 ELSE 64 + 16 * Max(tau[1], 0)
 
-HasTaus(I, ev) == ProcOk(ev) /\ IsAsync(I.kind) /\ I.signal = "index" /\ ~I.pre.flushed
-                    /\ ~I.flushed /\ Len(ev.taus) > 0 /\ Len(ev.taus) = ev.nout
+HasTaus0(I, ev) == ProcOk(ev) /\ IsAsync(I.kind) /\ I.signal = "index" /\ ~I.pre.flushed
+                     /\ ~I.flushed /\ Len(ev.taus) > 0 /\ Len(ev.taus) = ev.nout
+\* an instant is a position in a stream of fewer than 2^20 frames; anything else (the driver logs
+\* NaN/infinite/huge values as +-2^30) is not an instant at all.  Reported once, by C06_Increasing;
+\* the other predicates then have nothing to measure (and TLC's 32-bit integers are not overrun).
+SaneTau(t) == t[1] > -1048576 /\ t[1] < 1048576
+TausSane(I, ev) == /\ \A k \in 1..Len(ev.taus) : SaneTau(ev.taus[k])
+                   /\ (I.pre.warm => SaneTau(I.pre.lastTau))
+                   /\ SaneTau(I.pre.cur) /\ SaneTau(I.pre.tgt)      \* a NaN ratio was accepted (C12's business)
+HasTaus(I, ev) == HasTaus0(I, ev) /\ TausSane(I, ev)
 
 C06_Increasing(I, ev) ==
-  HasTaus(I, ev) =>
-    LET S == TauSeq(I, ev) IN
-      \A k \in 2..Len(S) :
-        IF IsNearest(I) THEN Diff(S[k], S[k - 1]) >= -2 * EpsAt(I, S[k])
-        ELSE Diff(S[k], S[k - 1]) > 0
+  HasTaus0(I, ev) =>
+    /\ \A k \in 1..Len(ev.taus) : SaneTau(ev.taus[k])
+    /\ TausSane(I, ev) =>
+        LET S == TauSeq(I, ev) IN
+          \A k \in 2..Len(S) :
+            IF IsNearest(I) THEN Diff(S[k], S[k - 1]) >= -2 * EpsAt(I, S[k])
+            ELSE Diff(S[k], S[k - 1]) > 0
 
 \* A ramp is realised in discrete steps; it may stop a few steps short of, or beyond, the
 \* target.  This is the resolution of "equals 1/new": 4 ramp steps.
